@@ -9,10 +9,10 @@ package rtpconn
 //     every packet it emits (VP8 with temporal layers, VP9 SVC, opaque).
 
 import (
-	"runtime"
 	"encoding/binary"
 	"fmt"
 	"reflect"
+	"runtime"
 	"sync"
 	"time"
 	"unsafe"
